@@ -101,3 +101,35 @@ package sign
 //@   requires r != nil && r.SigmaShares != nil && msg.Content != nil && (typeis(msg.Content, *broadcast5) ==> (msg.Content.(*broadcast5) != nil ==> dec_sb5(msg.Content.(*broadcast5))))
 //@   let body = msg.Content.(*broadcast5)
 //@   ensures[C03] result == nil ==> typeis(msg.Content, *broadcast5) && body != nil && scval(body.SigmaShare) != s_zero() && r.SigmaShares[msg.From] == body.SigmaShare
+
+// ---- Finalize methods (C05): with the state the previous rounds stored (every signer's entries present -- the handler
+// finalizes a round only after all its messages were stored, C07 -- and of the shapes the acceptance gates let
+// through) nothing panics; the masks sampled by the provers and by the MtA stay inside Paillier's plaintext range.
+//@ pred sgall(r *round1) := forall(j, party.ID, inslice(r.Helper.partyIDs, j) ==> sgparty(r, j)) && inslice(r.Helper.partyIDs, r.Helper.info.SelfID) && forall(x, party.ID, inslice(r.Helper.otherPartyIDs, x) ==> inslice(r.Helper.partyIDs, x)) && paillier.skwf(r.SecretPaillier) && r.SecretECDSA != nil
+//@ func (*round1).Finalize
+//@   nopanic[C05]
+//@   use bits
+//@   requires sg1ok(r) && sgall(r) && out != nil && !closed(out)
+//@ func (*round2).Finalize
+//@   nopanic[C05]
+//@   use bits
+//@   requires sg2ok(r) && sgall(r.round1) && out != nil && !closed(out) && r.GammaShare != nil && r.GNonce != nil
+//@   requires forall(j, party.ID, inslice(r.Helper.partyIDs, j) ==> (r.K[j] != nil && r.K[j].c != nil && r.G[j] != nil && r.G[j].c != nil)) && r.BigGammaShare[r.Helper.info.SelfID] != nil
+//@ func (*round3).Finalize
+//@   nopanic[C05]
+//@   use bits
+//@   requires sg3ok(r) && sgall(r.round1) && out != nil && !closed(out) && r.GammaShare != nil && r.KShare != nil && r.KNonce != nil && r.DeltaShareBeta != nil && r.ChiShareBeta != nil
+//@   requires forall(j, party.ID, indom(r.BigGammaShare, j) ==> r.BigGammaShare[j] != nil)
+//@   requires forall(j, party.ID, inslice(r.Helper.otherPartyIDs, j) ==> (r.DeltaShareAlpha[j] != nil && r.DeltaShareBeta[j] != nil && r.ChiShareAlpha[j] != nil && r.ChiShareBeta[j] != nil))
+//@   requires r.K[r.Helper.info.SelfID] != nil && r.K[r.Helper.info.SelfID].c != nil
+//@   loop 1: invariant Gamma != nil
+//@   loop 2: invariant DeltaShare != nil && ChiShare != nil && fresh(DeltaShare) && fresh(ChiShare)
+//@ func (*round4).Finalize
+//@   nopanic[C05]
+//@   requires sg4ok(r) && out != nil && !closed(out) && r.KShare != nil && r.ChiShare != nil && len(r.Message) > 0
+//@   requires forall(j, party.ID, inslice(r.Helper.partyIDs, j) ==> (r.DeltaShares[j] != nil && r.BigDeltaShares[j] != nil))
+//@   loop 1: invariant Delta != nil && BigDelta != nil
+//@ func (*round5).Finalize
+//@   nopanic[C05]
+//@   requires r != nil && sg4ok(r.round4) && r.R != nil && r.BigR != nil && r.PublicKey != nil && len(r.Message) > 0
+//@   requires forall(j, party.ID, inslice(r.Helper.partyIDs, j) ==> r.SigmaShares[j] != nil)
